@@ -126,19 +126,23 @@ VMove(m, d, s, fault) ==
 
 \* construct a payload of kind k / value v as the content of w: inline, or in a fresh heap block obtained from
 \* the allocator `tag`.  via = "inplace": constructed from arguments (fault "ctor": that constructor throws);
-\* via = "value": move-constructed from a temporary the caller made (fault "move": the move constructor throws).
+\* via = "value": move-constructed from a temporary the caller made (fault "move": the move constructor throws);
+\* via = "copy": copy-constructed from a const lvalue of the caller (fault "copy": the copy constructor throws; the payload
+\* types' copy constructors are not noexcept, their move constructors are - except ST's).
 MakeIn(m, w, k, v, via, tag, fault) ==
   LET o == P(k, v)
       inpl == InPlace(k)
-      throws == (via = "inplace" /\ fault = "ctor") \/ (via = "value" /\ fault = "move" /\ k = "ST")
-      m1 == IF via = "value" THEN Cnt(m, "ctor") ELSE m
+      throws == \/ via = "inplace" /\ fault = "ctor"
+                \/ via = "value" /\ fault = "move" /\ k = "ST"
+                \/ via = "copy" /\ fault = "copy"
+      m1 == IF via \in {"value", "copy"} THEN Cnt(m, "ctor") ELSE m
       m2 == IF inpl THEN m1 ELSE Cnt(m1, "alloc")
       m3 == IF throws THEN (IF inpl THEN m2 ELSE Cnt(m2, "free"))       \* scope_guard / catch: deallocate, rethrow
-            ELSE LET m3a == Cnt(m2, IF via = "value" THEN "move" ELSE "ctor")
+            ELSE LET m3a == Cnt(m2, IF via = "value" THEN "move" ELSE IF via = "copy" THEN "copy" ELSE "ctor")
                      b == NewB(m)
                  IN IF inpl THEN PutInl(m3a, w, o)
                     ELSE PutPtr([m3a EXCEPT !.heap[b] = [used |-> TRUE, tag |-> tag, o |-> o]], w, b)
-      m4 == IF via = "value" THEN Cnt(m3, "dtor") ELSE m3
+      m4 == IF via \in {"value", "copy"} THEN Cnt(m3, "dtor") ELSE m3
   IN [m4 EXCEPT !.exc = IF throws THEN 1000 + v ELSE 0]
 
 VtFor(k) == IF InPlace(k) THEN [t |-> "inl", k |-> k] ELSE [t |-> "heap", k |-> k]
@@ -173,7 +177,9 @@ Construct(w, k, via, tag, fault) ==
   /\ IF fam = "uniq" THEN tag \in {9, 1, 2}                 \* 9 = plain new/delete, 1,2 = allocator_arg with that allocator
      ELSE tag \in {0, 1} /\ (InPlace(k) /\ tag = 1 => k = "SN")  \* 0 = DefaultAllocator
   /\ fault \in {"none"} \cup (IF via = "inplace" THEN {"ctor"} ELSE {}) \cup (IF via = "value" /\ k = "ST" THEN {"move"} ELSE {})
+                       \cup (IF via = "copy" THEN {"copy"} ELSE {})
   /\ fault = "ctor" => tag \in {0, 9} /\ k \in {"SN", "LG"}
+  /\ via = "copy" => tag \in {0, 9} /\ k \in {"SN", "LG"}
   /\ \E v \in {NewVal}, m0 \in {M0} : \E m2 \in {MakeIn([m0 EXCEPT !.vt[w] = VtFor(k)], w, k, v, via, tag, fault)} :
      \E m3 \in {IF m2.exc # 0 THEN [m2 EXCEPT !.vt[w] = NoneVt, !.st[w] = Empty] ELSE m2} :
         Commit(m3, [NoOp EXCEPT !.k = "construct", !.w = w, !.kind = k, !.via = via, !.tag = tag, !.fault = fault, !.val = v],
@@ -201,14 +207,22 @@ MoveA(w, s, fault) ==
         IF w = s THEN Commit(M0, op, abs)
         ELSE Commit(m4, op, IF m3.exc # 0 THEN [abs EXCEPT ![w] = InvAbs] ELSE AbsMoved(abs, w, s))
 
-AssignValue(w, k, fault) ==
-  /\ fam \in {"objT", "objF"} /\ vt[w].t # "none" /\ k \in PKinds
-  /\ fault \in {"none"} \cup (IF k = "ST" THEN {"move"} ELSE {})
+\* operator=(T&& value).  Inline overload: the invalid_obj vtable is installed iff constructing value_type from the argument
+\* may throw (!is_nothrow_constructible_v<value_type, T>: a throwing move for an rvalue, always for a const lvalue of the
+\* payload types) - independent of RequireNoexceptMove; heap overload: always.
+MayThrowFrom(k, via) == via = "copy" \/ ~Nothrow(k)
+AssignValue(w, k, via, fault) ==
+  /\ fam \in {"objT", "objF"} /\ vt[w].t # "none" /\ k \in PKinds /\ via \in {"value", "copy"}
+  /\ via = "copy" => k \in {"SN", "EX", "LG"}
+  /\ fault \in {"none"} \cup (IF via = "value" /\ k = "ST" THEN {"move"} ELSE {}) \cup (IF via = "copy" THEN {"copy"} ELSE {})
   /\ \E v \in {NewVal}, m0 \in {M0} : \E m1 \in {VDestroy(m0, w)} :
-     \E m2 \in {IF (~InPlace(k) \/ ~Nothrow(k)) /\ Bug # "noInvalid" THEN [m1 EXCEPT !.vt[w] = InvVt] ELSE m1} :
-     \E m3 \in {MakeIn(m2, w, k, v, "value", 0, fault)} :
+     \E m2 \in {IF CASE Bug = "noInvalid" -> FALSE
+                      [] Bug = "guardOnRequire" -> ~InPlace(k) \/ fam = "objF"
+                      [] OTHER -> ~InPlace(k) \/ MayThrowFrom(k, via)
+                 THEN [m1 EXCEPT !.vt[w] = InvVt] ELSE m1} :
+     \E m3 \in {MakeIn(m2, w, k, v, via, 0, fault)} :
      \E m4 \in {IF m3.exc = 0 THEN [m3 EXCEPT !.vt[w] = VtFor(k)] ELSE m3} :
-        Commit(m4, [NoOp EXCEPT !.k = "assign", !.w = w, !.kind = k, !.via = "value", !.fault = fault, !.val = v],
+        Commit(m4, [NoOp EXCEPT !.k = "assign", !.w = w, !.kind = k, !.via = via, !.fault = fault, !.val = v],
                [abs EXCEPT ![w] = IF m3.exc # 0 THEN InvAbs ELSE ValAbs(P(k, v))])
 
 Swap(w, s) ==
@@ -292,9 +306,9 @@ Init == /\ fam \in Fams
         /\ last = [op |-> NoOp, exc |-> 0, res |-> 0, c |-> Z]
 
 Next == /\ n < MaxOps
-        /\ \/ \E w \in Wr, k \in PKinds, via \in {"inplace", "value"}, tag \in {0, 1, 2, 9}, f \in {"none", "ctor", "move"} : Construct(w, k, via, tag, f)
+        /\ \/ \E w \in Wr, k \in PKinds, via \in {"inplace", "value", "copy"}, tag \in {0, 1, 2, 9}, f \in {"none", "ctor", "move", "copy"} : Construct(w, k, via, tag, f)
            \/ \E w \in Wr, s \in Wr, f \in {"none", "move"} : MoveC(w, s, f) \/ MoveA(w, s, f)
-           \/ \E w \in Wr, k \in PKinds, f \in {"none", "move"} : AssignValue(w, k, f)
+           \/ \E w \in Wr, k \in PKinds, via \in {"value", "copy"}, f \in {"none", "move", "copy"} : AssignValue(w, k, via, f)
            \/ \E w \in Wr, s \in Wr : Swap(w, s) \/ CopyRef(w, s) \/ SCopy(w, s) \/ SEq(w, s) \/ EqRef(w, s, TRUE) \/ EqRef(w, s, FALSE)
            \/ \E w \in Wr, cpo \in {"get", "add", "snd", "ovl", "thr"} : Invoke(w, cpo)
            \/ \E w \in Wr : Destroy(w) \/ Sched(w) \/ GetType(w)
@@ -331,7 +345,7 @@ AbsAgrees ==
 \* MoveTransfersWithoutCopy / copies only where documented (any_scheduler is copyable)
 OpMovesOnly ==
   LET o == last.op IN
-  /\ fam # "sched" => last.c.copy = 0
+  /\ fam # "sched" => last.c.copy = (IF o.via = "copy" /\ last.exc = 0 THEN 1 ELSE 0)   \* only the copy the caller asked for
   /\ o.k \in {"movec", "movea", "swap"} => last.c.copy = 0 /\ last.c.move <= 1 /\ last.c.ctor = 0
   /\ (o.k \in {"movec", "movea", "swap"} /\ fam \in {"uniq", "sched"}) => last.c.move = 0
   /\ fam \in RefF => last.c = Z
